@@ -62,6 +62,8 @@ class Ctx:
         self.undecided_clauses = []
         self.bounded = []
         self.notes = []
+        self.weak_ids = set()    # id substrings of obligations that are contracts on *helpers* (implementation level): when one fails
+        #                          and the property-level native contract finds no failing input, the verdict is undecided
         self.covers = 0
         self.canaries = 0
         self.timeout_ms = 30000 if tier == "quick" else 120000
@@ -269,6 +271,14 @@ class Ctx:
         if not res:
             res.append(self.add(ObResult(f"{prefix}/{name}/no-obligations", "error",
                                          detail="VC generation produced zero obligations")))
+        gaps = getattr(I, "annotation_gaps", None)
+        if gaps:
+            flat = sorted({f"{q.split('.')[-1]}:{x}" for ((m_, q), ln), names in gaps.items() for x in names})
+            import os as _os
+            if _os.environ.get("VERIF_GAPS"):
+                print("ANNOTATION-GAP", qualname, flat)
+            for r in res:
+                r.annotation_mismatch = flat
         return res
 
     def lemma(self, oid, assumptions, goal, kind="lemma", detail="", timeout_ms=None):
